@@ -362,27 +362,118 @@ func ruleP4(p *Prog) *RuleResult {
 	return res
 }
 
-func rulePT(p *Prog) *RuleResult {
-	res := newResult("PT", ruleDoc["PT"], 2)
+// Pool helpers: a function that returns a value it took from a package-level pool (acquire), and a function
+// that puts one of its parameters back (release). Callers of such helpers are treated as if they had made
+// the Get / Put themselves.
+type poolHelper struct {
+	pool       ssa.Value
+	resetFirst bool // acquire: the helper resets the object before returning it
+	param      int  // release: which parameter goes back
+}
+
+func poolHelpers(p *Prog) (acquire, release map[*ssa.Function]poolHelper) {
+	acquire, release = map[*ssa.Function]poolHelper{}, map[*ssa.Function]poolHelper{}
 	for _, f := range p.sourceFns() {
-		var gets []*ssa.Call
+		if f.Parent() != nil {
+			continue
+		}
 		for _, b := range f.Blocks {
 			for _, ins := range b.Instrs {
-				if c, ok := ins.(*ssa.Call); ok {
-					if callee := c.Call.StaticCallee(); callee != nil && callee.String() == "(*sync.Pool).Get" {
-						if _, isGlobal := c.Call.Args[0].(*ssa.Global); isGlobal {
-							gets = append(gets, c)
+				c, ok := ins.(*ssa.Call)
+				if !ok {
+					continue
+				}
+				callee := c.Call.StaticCallee()
+				if callee == nil || len(c.Call.Args) == 0 {
+					continue
+				}
+				if _, isGlobal := c.Call.Args[0].(*ssa.Global); !isGlobal {
+					continue
+				}
+				switch callee.String() {
+				case "(*sync.Pool).Get":
+					// returned (through its type assertion)?
+					if c.Referrers() == nil {
+						continue
+					}
+					for _, r := range *c.Referrers() {
+						ta, ok := r.(*ssa.TypeAssert)
+						if !ok || ta.Referrers() == nil {
+							continue
+						}
+						returned, reset := false, false
+						for _, rr := range *ta.Referrers() {
+							switch y := rr.(type) {
+							case *ssa.Return:
+								returned = true
+							case *ssa.Call:
+								if g := y.Call.StaticCallee(); g != nil && g.Name() == "Reset" && len(y.Call.Args) > 0 && y.Call.Args[0] == ssa.Value(ta) {
+									reset = true
+								}
+							}
+						}
+						if returned {
+							acquire[f] = poolHelper{pool: c.Call.Args[0], resetFirst: reset}
+						}
+					}
+				case "(*sync.Pool).Put":
+					if len(c.Call.Args) < 2 {
+						continue
+					}
+					v := c.Call.Args[1]
+					if mi, ok := v.(*ssa.MakeInterface); ok {
+						v = mi.X
+					}
+					for i, prm := range f.Params {
+						if prm == v {
+							release[f] = poolHelper{pool: c.Call.Args[0], param: i}
 						}
 					}
 				}
 			}
 		}
-		for gi, get := range gets {
+	}
+	return
+}
+
+func rulePT(p *Prog) *RuleResult {
+	res := newResult("PT", ruleDoc["PT"], 2)
+	acquire, release := poolHelpers(p)
+	for _, f := range p.sourceFns() {
+		if _, isAcq := acquire[f]; isAcq {
+			continue // its Get is judged at the callers
+		}
+		type getSite struct {
+			call  *ssa.Call
+			pool  ssa.Value
+			obj   ssa.Value
+			reset bool
+		}
+		var gets []getSite
+		for _, b := range f.Blocks {
+			for _, ins := range b.Instrs {
+				if c, ok := ins.(*ssa.Call); ok {
+					callee := c.Call.StaticCallee()
+					if callee == nil {
+						continue
+					}
+					if callee.String() == "(*sync.Pool).Get" {
+						if _, isGlobal := c.Call.Args[0].(*ssa.Global); isGlobal {
+							gets = append(gets, getSite{call: c, pool: c.Call.Args[0]})
+						}
+					} else if h, ok := acquire[callee]; ok {
+						gets = append(gets, getSite{call: c, pool: h.pool, obj: c, reset: h.resetFirst})
+					}
+				}
+			}
+		}
+		for gi, gs := range gets {
+			get := gs.call
 			c := fmt.Sprintf("%s|Pool.Get#%d", fname(f), gi+1)
-			pool := get.Call.Args[0]
+			pool := gs.pool
 			// the typed value
-			var obj ssa.Value
-			if get.Referrers() != nil {
+			obj := gs.obj
+			if obj == nil && get.Referrers() != nil {
 				for _, r := range *get.Referrers() {
 					if ta, ok := r.(*ssa.TypeAssert); ok {
 						obj = ta
@@ -410,7 +501,7 @@ func rulePT(p *Prog) *RuleResult {
 				return false
 			}
 			// (a) Reset is the first use
-			resetFirst := false
+			resetFirst := gs.reset
 			after := false
 			for _, ins := range get.Block().Instrs {
 				if ins == ssa.Instruction(get) {
@@ -419,6 +510,9 @@ func rulePT(p *Prog) *RuleResult {
 				}
 				if !after {
 					continue
+				}
+				if gs.reset {
+					break
 				}
 				if cc, ok := ins.(*ssa.Call); ok {
 					if callee := cc.Call.StaticCallee(); callee != nil && len(cc.Call.Args) > 0 && isObj(cc.Call.Args[0]) {
@@ -437,6 +531,10 @@ func rulePT(p *Prog) *RuleResult {
 						case *ssa.Call:
 							if callee := x.Call.StaticCallee(); callee != nil && callee.String() == "(*sync.Pool).Put" && x.Call.Args[0] == pool {
 								puts = append(puts, x)
+							} else if callee != nil {
+								if h, ok := release[callee]; ok && h.pool == pool {
+									puts = append(puts, x)
+								}
 							}
 						case *ssa.Defer:
 							if callee := x.Call.StaticCallee(); callee != nil {
